@@ -112,6 +112,7 @@ type tStep struct {
 	Src   string `json:"src"`  // burst: the (fresh) source of the simultaneous first requests
 	Dial  bool   `json:"dial"` // burst: NewConnection(address of src) races the requests
 	Unsized bool `json:"unsized"` // hs: the request body has no announced length (chunked): ContentLength -1
+	Lane    int  `json:"lane"`    // w: writer goroutine of that end (0 = the end's one sequential writer); writes of different lanes overlap
 }
 
 type tScen struct {
@@ -299,6 +300,7 @@ type tEnd struct {
 	addr   string // real address of the http connection
 	rw     goat.RpcReadWriter
 	w, r   *tWorker
+	lanes  map[int]*tWorker // additional writers (concurrent with w and with each other)
 	nW, nR int
 	raw    *websocket.Conn
 	failed atomic.Bool // a Read returned an error (reader loops stop)
@@ -431,9 +433,10 @@ func (r *tRun) httpClass(h *tInst, m *goat.Rpc) (class, addr string) {
 	return "ok", a
 }
 
-func (r *tRun) doWrite(e *tEnd, op *tOp, v *tVal, pre bool) {
+func (r *tRun) doWrite(e *tEnd, op *tOp, v *tVal, pre bool, lane int) {
 	m := v.build()
 	x := r.opEv("WS", e, op.id)
+	x.N = lane
 	x.Pay = tDigest(m)
 	x.Res = "wf"
 	if e.conn != 0 { // http: how the peer's ladder will see it
@@ -451,10 +454,12 @@ func (r *tRun) doWrite(e *tEnd, op *tOp, v *tVal, pre bool) {
 		y.Res, y.Msg = tErrClass(err), tShort(err)
 		r.emit(y)
 	} else {
-		e.nW++
 		y := r.opEv("W", e, op.id)
+		r.mu.Lock() // writers of different lanes finish concurrently: number and log atomically
+		e.nW++
 		y.N = e.nW
 		r.emit(y)
+		r.mu.Unlock()
 	}
 	close(op.done)
 }
@@ -937,7 +942,17 @@ func (r *tRun) step(st tStep) {
 	case "w":
 		op := r.newOp(st.Id, "W")
 		if e := r.endFor(st, op); e != nil {
-			e.w.ch <- func() { r.doWrite(e, op, st.V, st.Pre) }
+			w := e.w
+			if st.Lane != 0 {
+				if e.lanes == nil {
+					e.lanes = map[int]*tWorker{}
+				}
+				if e.lanes[st.Lane] == nil {
+					e.lanes[st.Lane] = newTWorker()
+				}
+				w = e.lanes[st.Lane]
+			}
+			w.ch <- func() { r.doWrite(e, op, st.V, st.Pre, st.Lane) }
 		}
 	case "r":
 		op := r.newOp(st.Id, "R")
@@ -1080,11 +1095,17 @@ func (r *tRun) unwind() {
 	for _, e := range r.ends {
 		close(e.w.ch)
 		close(e.r.ch)
+		for _, w := range e.lanes {
+			close(w.ch)
+		}
 	}
 	r.mu.Lock()
 	for _, c := range r.conns {
 		close(c.w.ch)
 		close(c.r.ch)
+		for _, w := range c.lanes {
+			close(w.ch)
+		}
 	}
 	r.mu.Unlock()
 	r.settle()
